@@ -43,6 +43,7 @@ func runC04(p *Prog, r *Report) {
 	matchesCompleteRule(p, r, "C04.R6", "BasicTargetPointerRule is the only rule that copies a basic value into a fresh local before its address is taken; when it steps aside TargetPointer takes the address of the source expression itself", "builder.(*BasicTargetPointerRule).Matches")
 	precedenceRule(p, r, "C04.R7", "BasicTargetPointerRule")
 	identityAddressableRule(p, r, "C04.R8")
+	variableFlagRule(p, r, "C04.R9")
 	r.Rule("C04.R4", "statelessness: the generated receiver struct has zero fields and no Var/Const is added to the file (C18.R2), own code keeps no package-level state, and generated sub-methods — which are shared between sibling methods — take the converter-level settings", 3)
 	// reuse: empty struct
 	for _, c := range p.Chains() {
